@@ -19,6 +19,10 @@ ASSUMPTIONS = [
 
 def keyfn(kind, run, det):
     case = det.get("case") or {}
+    if case.get("id", 0) >= 910000:
+        pre = (case.get("pre") or [{}])[0].get("size")
+        src = (case.get("nodes") or [{}])[0].get("size")
+        return "overwrite-existing-src%s-old%s-p%s" % (src, pre, case["opts"]["protocol"])
     if case.get("id", 0) >= 900000:
         return "nofile-" + ("upload" if case["opts"]["upload"] else "download") + ("-dir" if case["opts"]["directory"] else "")
     return "obs-" + kind
@@ -41,11 +45,16 @@ def run(tier, v):
     s2 = vlib.run_driver(h, "c01_nofile", out2, {})
     f2, d2 = E.gather(out2, 1)
     details.update(d2)
-    obs = E.strip_lines(files + f2, out)
+    out3 = os.path.join(vlib.scratch(), "c01resume")
+    s3 = vlib.run_driver(h, "c01_resume", out3, {}, timeout=1500)
+    f3, d3 = E.gather(out3, 1)
+    details.update(d3)
+    obs = E.strip_lines(files + f2 + f3, out)
     bad, _, st1 = E.judge(obs, "TransferObs", "TransferObs_c01.cfg", v, details, "obs", keyfn=keyfn)
     bad2, drift, st2 = E.judge(files, "TransferTrace", "TransferTrace.cfg", v, details, "msg", violation=False)
     # a message-level invariant failure (predicted destination differs from the observed one) is a violation
-    cov["traces_validated_against_impl"] = s["runs"] + s2["runs"]
+    cov["traces_validated_against_impl"] = s["runs"] + s2["runs"] + s3["runs"]
+    cov["overwrite_existing_runs"] = s3["runs"]
     cov["obs_files_rejected"] = bad
     cov["msg_level_drift"] = drift[:10]
     cov["msg_level_rejected_files"] = bad2
